@@ -244,3 +244,219 @@ where
         _ => run_common::<F>(st, op, ar, br, outs),
     }
 }
+
+// ---------------------------------------------------------------------------
+// Wrapping<F> programs (C18): an initial value and a short sequence of operations;
+// the value after every step is reported ("s<i>"), together with the corresponding
+// wrapping operation applied to F directly ("d<i>", differential).
+
+use std::str::FromStr;
+use substrate_fixed::Wrapping;
+
+pub const W_NEG: u16 = 0;
+pub const W_NOT: u16 = 1;
+pub const W_ABS: u16 = 2;
+pub const W_SIGNUM: u16 = 3;
+pub const W_CEIL: u16 = 4;
+pub const W_FLOOR: u16 = 5;
+pub const W_ROUND: u16 = 6;
+pub const W_RTE: u16 = 7;
+pub const W_RTZ: u16 = 8;
+pub const W_INT: u16 = 9;
+pub const W_FRAC: u16 = 10;
+pub const W_NPOT: u16 = 11;
+pub const W_ROTL: u16 = 12;
+pub const W_ROTR: u16 = 13;
+pub const W_BIN: u16 = 14;
+pub const W_DIV_EUCLID: u16 = 15;
+pub const W_REM_EUCLID: u16 = 16;
+pub const W_INT_OP: u16 = 17;
+pub const W_DIV_EUCLID_INT: u16 = 18;
+pub const W_REM_EUCLID_INT: u16 = 19;
+pub const W_SHIFT: u16 = 20;
+pub const W_SUM: u16 = 21;
+pub const W_PRODUCT: u16 = 22;
+pub const W_FROM_INT: u16 = 23;
+pub const W_FROM_F64: u16 = 24;
+pub const W_FROM_F32: u16 = 25;
+pub const W_FROM_FIXED: u16 = 26;
+pub const W_FROM_STR: u16 = 27;
+pub const W_NOPS: u16 = 28;
+pub const W_NAMES: [&str; W_NOPS as usize] = [
+    "neg", "not", "abs", "signum", "ceil", "floor", "round", "round_ties_to_even", "round_to_zero", "int", "frac",
+    "next_power_of_two", "rotate_left", "rotate_right", "binop", "div_euclid", "rem_euclid", "int_op", "div_euclid_int",
+    "rem_euclid_int", "shift", "sum", "product", "from_int", "from_f64", "from_f32", "from_fixed", "from_str",
+];
+pub const PROGRAM: u16 = 30;
+pub const MAX_STEPS: usize = 8;
+pub const S_LABELS: [&str; MAX_STEPS] = ["s0", "s1", "s2", "s3", "s4", "s5", "s6", "s7"];
+pub const D_LABELS: [&str; MAX_STEPS] = ["d0", "d1", "d2", "d3", "d4", "d5", "d6", "d7"];
+
+fn from_fixed_sel<F: VF>(x: u128, sel: u128) -> Wrapping<F> {
+    use substrate_fixed::types::*;
+    match sel % 4 {
+        0 => Wrapping::<F>::from_num(I16F16::from_bits(x as i32)),
+        1 => Wrapping::<F>::from_num(U8F8::from_bits(x as u16)),
+        2 => Wrapping::<F>::from_num(I64F64::from_bits(x as i128)),
+        _ => Wrapping::<F>::from_num(U0F128::from_bits(x)),
+    }
+}
+
+/// the operations available for every signedness; `None` = not handled here
+#[allow(clippy::type_complexity)]
+fn w_step<F: VF>(cur: Wrapping<F>, hist: &[Wrapping<F>], wop: u16, x: u128, y: u128, s: &str) -> Result<Option<Wrapping<F>>, String>
+where
+    F::Bits: Copy,
+{
+    let b = Wrapping(F::from_raw(x));
+    let n = F::bits_from_raw(x);
+    Ok(Some(match wop {
+        W_NEG => F::w_un(cur, 0, y & 1 == 1),
+        W_NOT => F::w_un(cur, 1, y & 1 == 1),
+        W_CEIL => cur.ceil(),
+        W_FLOOR => cur.floor(),
+        W_ROUND => cur.round(),
+        W_RTE => cur.round_ties_to_even(),
+        W_RTZ => cur.round_to_zero(),
+        W_INT => cur.int(),
+        W_FRAC => cur.frac(),
+        W_ROTL => cur.rotate_left(x as u32),
+        W_ROTR => cur.rotate_right(x as u32),
+        W_BIN => F::w_bin(cur, b, (y & 7) as u8, ((y >> 8) % 6) as u8),
+        W_DIV_EUCLID => cur.div_euclid(b),
+        W_REM_EUCLID => cur.rem_euclid(b),
+        W_INT_OP => F::w_int(cur, n, 2 + (y % 3) as u8, ((y >> 8) % 6) as u8),
+        W_DIV_EUCLID_INT => cur.div_euclid_int(n),
+        W_REM_EUCLID_INT => cur.rem_euclid_int(n),
+        W_SHIFT => F::w_shift(cur, (y & 0xff) as usize % 12, x, (y >> 8) & 1 == 1, ((y >> 16) % 6) as u8),
+        W_SUM => {
+            if y & 1 == 1 {
+                hist.iter().sum()
+            } else {
+                hist.iter().cloned().sum()
+            }
+        }
+        W_PRODUCT => {
+            if y & 1 == 1 {
+                hist.iter().product()
+            } else {
+                hist.iter().cloned().product()
+            }
+        }
+        W_FROM_INT => lay::with_int!((y % 12) as usize, T => Wrapping::<F>::from_num(<T as lay::IntRaw>::from_raw(x))),
+        W_FROM_F64 => Wrapping::<F>::from_num(f64::from_bits(x as u64)),
+        W_FROM_F32 => Wrapping::<F>::from_num(f32::from_bits(x as u32)),
+        W_FROM_FIXED => from_fixed_sel::<F>(x, y),
+        W_FROM_STR => {
+            let r = match y {
+                2 => Wrapping::<F>::from_str_binary(s),
+                8 => Wrapping::<F>::from_str_octal(s),
+                16 => Wrapping::<F>::from_str_hex(s),
+                _ => Wrapping::<F>::from_str(s),
+            };
+            match r {
+                Ok(v) => v,
+                Err(e) => return Err(e.to_string()),
+            }
+        }
+        _ => return Ok(None),
+    }))
+}
+
+/// the corresponding operation on F itself (differential); `None` = no direct counterpart
+#[allow(deprecated)]
+fn f_step<F: VF>(cur: F, wop: u16, x: u128, y: u128) -> Option<F>
+where
+    F::Bits: Copy,
+{
+    let b = F::from_raw(x);
+    let n = F::bits_from_raw(x);
+    Some(match wop {
+        W_NEG => cur.wrapping_neg(),
+        W_CEIL => cur.wrapping_ceil(),
+        W_FLOOR => cur.wrapping_floor(),
+        W_ROUND => cur.wrapping_round(),
+        W_RTE => cur.wrapping_round_ties_to_even(),
+        W_BIN => match y & 7 {
+            0 => cur.wrapping_add(b),
+            1 => cur.wrapping_sub(b),
+            2 => cur.wrapping_mul(b),
+            3 => cur.wrapping_div(b),
+            4 => cur % b,
+            5 => cur & b,
+            6 => cur | b,
+            _ => cur ^ b,
+        },
+        W_DIV_EUCLID => cur.wrapping_div_euclid(b),
+        W_REM_EUCLID => cur.rem_euclid(b),
+        W_INT_OP => match y % 3 {
+            0 => cur.wrapping_mul_int(n),
+            1 => cur.wrapping_div_int(n),
+            _ => cur.wrapping_rem_int(n),
+        },
+        W_DIV_EUCLID_INT => cur.wrapping_div_euclid_int(n),
+        W_REM_EUCLID_INT => cur.wrapping_rem_euclid_int(n),
+        _ => return None,
+    })
+}
+
+fn run_prog_with<F: VF>(st: usize, a: u128, prog: &[(u16, u128, u128)], s: &str, outs: &mut Outs, special: fn(Wrapping<F>, u16) -> Option<Wrapping<F>>)
+where
+    F::Bits: Copy,
+{
+    if st > 0 {
+        // a step unwound: the program ends there
+        return;
+    }
+    let mut cur = Wrapping(F::from_raw(a));
+    let mut hist: Vec<Wrapping<F>> = vec![cur];
+    for (i, (wop, x, y)) in prog.iter().take(MAX_STEPS).enumerate() {
+        outs.push((S_LABELS[i], Out::Na));
+        let r = match special(cur, *wop) {
+            Some(v) => Ok(Some(v)),
+            None => w_step::<F>(cur, &hist, *wop, *x, *y, s),
+        };
+        match r {
+            Ok(Some(v)) => {
+                outs.last_mut().unwrap().1 = Out::V(v.0.raw());
+                // differential on the previous value
+                outs.push((D_LABELS[i], Out::Na));
+                let d = f_step::<F>(cur.0, *wop, *x, *y);
+                outs.last_mut().unwrap().1 = match d {
+                    Some(dv) => Out::V(dv.raw()),
+                    None => Out::Na,
+                };
+                cur = v;
+                hist.push(cur);
+            }
+            Ok(None) => {
+                // operation not available for this signedness: value unchanged
+                outs.last_mut().unwrap().1 = Out::V(cur.0.raw());
+            }
+            Err(msg) => {
+                outs.last_mut().unwrap().1 = Out::E(msg);
+            }
+        }
+    }
+}
+
+pub fn run_prog_signed<F: VF + FixedSigned>(st: usize, a: u128, prog: &[(u16, u128, u128)], s: &str, outs: &mut Outs)
+where
+    F::Bits: Copy,
+{
+    run_prog_with::<F>(st, a, prog, s, outs, |cur, wop| match wop {
+        W_ABS => Some(cur.abs()),
+        W_SIGNUM => Some(cur.signum()),
+        _ => None,
+    })
+}
+
+pub fn run_prog_unsigned<F: VF + FixedUnsigned>(st: usize, a: u128, prog: &[(u16, u128, u128)], s: &str, outs: &mut Outs)
+where
+    F::Bits: Copy,
+{
+    run_prog_with::<F>(st, a, prog, s, outs, |cur, wop| match wop {
+        W_NPOT => Some(cur.next_power_of_two()),
+        _ => None,
+    })
+}
